@@ -512,6 +512,9 @@ func GenAtom(t *rapid.T, l string, kind string, depth int, o *GenOpts) *Expr {
 		if kind == "people" && !o.NoDotted {
 			syms = append(syms, "boss.ba")
 		}
+		if kind == "people" && !o.NoMaps {
+			syms = append(syms, "tags.k") // a map element used as a condition by itself (true when it holds the bool true)
+		}
 		if kind == "places" {
 			return &Expr{Op: pick(t, l+"_const", []string{"true", "false"})}
 		}
